@@ -30,7 +30,7 @@ pub(crate) fn create(lhs: InstructionWithStr) -> Result<Instruction, Error> {
 }
 
 pub fn can_be_used(lhs: &Type) -> bool {
-    lhs.matches(&ACCEPTED_TYPE)
+    lhs != &Type::Never && lhs.matches(&ACCEPTED_TYPE)
 }
 
 pub(crate) fn exec(var: Variable, interpreter: &mut Interpreter) -> ExecResult {
